@@ -205,6 +205,14 @@ func Convert(value any, typ reflect.Type) (any, error) { //nolint: gocyclo
 			return nil, conversionError("", value, typ)
 		}
 		for _, key := range rv.MapKeys() {
+			// the element is looked up under the key as the source map has it
+			ev := rv.MapIndex(key)
+			if key.Kind() == reflect.Interface && !key.IsNil() {
+				key = key.Elem()
+			}
+			if ev.Kind() == reflect.Interface && !ev.IsNil() {
+				ev = ev.Elem()
+			}
 			if typ.Key().Kind() == reflect.String {
 				key = reflect.ValueOf(fmt.Sprint(key))
 			}
@@ -212,7 +220,6 @@ func Convert(value any, typ reflect.Type) (any, error) { //nolint: gocyclo
 				return nil, conversionError("map key", key, typ.Key())
 			}
 			key = key.Convert(typ.Key())
-			ev := rv.MapIndex(key)
 			if et.Kind() == reflect.String {
 				ev = reflect.ValueOf(fmt.Sprint(ev))
 			}
